@@ -237,7 +237,11 @@ def no_shared_writes(ctx: Ctx, rule: str, shorts=None, accept=("Fresh", "Self"))
 ORDERING_PROPS = ("C05", "C07", "C08", "C09")
 
 
-def generic_lints(ctx: Ctx, rule: str = "lint"):
+# the lints that bear on C18 (results independent of history / process): everything else is about values
+C18_LINT_KINDS = ("literal-identity", "unordered", "non-unique-key")
+
+
+def generic_lints(ctx: Ctx, rule: str = "lint", kinds=None, scope=None):
     """Constructs that are wrong wherever they stand (cubeverif/lints.py), reported for the code that computes THIS
     property's quantities (cubeverif/scope.py)."""
     from .. import lints as L
@@ -249,10 +253,14 @@ def generic_lints(ctx: Ctx, rule: str = "lint"):
     n, hits = 0, []
     for m in ctx.repo.all_members():
         short = m.cls.module.path.split("cr/cube/")[-1]
-        if not in_scope(ctx.prop, short, m.cls.name, m.name):
+        if not (scope(short, m.cls.name, m.name) if scope is not None else in_scope(ctx.prop, short, m.cls.name, m.name)):
             continue
         n += 1
         for kind, text, why in L.scan_function(m.node, m.name, ctx.prop in ORDERING_PROPS):
+            if kinds is None and ctx.prop == "C18" and kind not in C18_LINT_KINDS:
+                continue
+            if kinds is not None and kind not in kinds:
+                continue
             hits.append((f"{short}::{m.cls.name}.{m.name} [{text}]", kind, why))
     ctx.count("functions in this property's scope (generic lints)", n)
     ctx.require_min("functions in this property's scope (generic lints)", 3)
@@ -716,3 +724,56 @@ def marginal_leaves(ctx: Ctx, sl, public: str, want: str):
         return leaves, True
     other = [l for l in leaves if l.startswith("self._assemble_marginal(self._measures.") and l != want]
     return leaves, (False if other else None)
+
+
+def transform_pairing_table(ctx: Ctx, rule: str = "transform-pairing"):
+    """Which transforms reach which dimension: the strand's rows dimension is the LAST dimension of its cube with the
+    `rows_dimension` transforms (also when the cube is a 2-D categorical array shown CA-as-0th); the slice's dimensions are
+    the last two with (`rows_dimension`, `columns_dimension`).  DECTAB over cubes of 1..3 dimensions with a symbolic
+    `apply_transforms`, whatever helper the pairing is computed in."""
+    from ..dectab import DTop, ModelInterp, Raises
+    from ..symex import expand
+
+    class _I(ModelInterp):
+        def _call(self, c, it):
+            if isinstance(c.func, ast.Attribute) and c.func.attr == "apply_transforms" and len(c.args) == 1:
+                return ("T", self.ev(c.func.value), self.ev(c.args[0]))
+            return super()._call(c, it)
+
+    tdict = {"rows_dimension": "ROWS-TRANSFORMS", "columns_dimension": "COLUMNS-TRANSFORMS"}
+    for cname, member, ndims in (("_Strand", "_rows_dimension", (1, 2)), ("_Slice", "_dimensions", (2, 3))):
+        ci = ctx.repo.cls("cubepart.py", cname)
+        where = f"cubepart.py::{cname}.{member} [transforms]"
+        if ctx.repo.lookup(ci, member) is None:
+            ctx.undecided(rule, where, "member not found", "")
+            continue
+        body = expand(ctx.repo, ci, member, stop=lambda m: m.name in ("_cube", "_transforms_dict"))
+        bad, n = [], 0
+        try:
+            for nd in ndims:
+                dims = tuple(f"D{i}" for i in range(nd))
+
+                def atoms(x, dims=dims):
+                    t = u(x)
+                    if t == "self._cube.dimensions":
+                        return dims
+                    if t == "self._transforms_dict":
+                        return tdict
+                    raise KeyError
+
+                got = _I(atoms).ev(body)
+                if cname == "_Strand":
+                    want = ("T", dims[-1], "ROWS-TRANSFORMS")
+                else:
+                    got = tuple(got)
+                    want = (("T", dims[-2], "ROWS-TRANSFORMS"), ("T", dims[-1], "COLUMNS-TRANSFORMS"))
+                n += 1
+                if got != want:
+                    bad.append(f"{nd}-D cube: {got}, specified {want}")
+        except Raises as r:
+            bad.append(f"raises {r.etype}")
+        except DTop as t:
+            ctx.undecided(rule, where, "DECTAB: " + str(t), "last dimension(s) paired with (rows, columns) transforms")
+            continue
+        ctx.ob(rule, where, bad[:2] or f"{n} cube shapes", "strand: last dimension with the rows transforms; slice: last two dimensions with (rows, columns) transforms", not bad,
+               "a CA-as-0th strand (2-D cube) gets the COLUMNS transforms on its rows: its hide / prune / order requests are ignored and the columns' ones applied")
